@@ -1287,6 +1287,14 @@ class OptionStore:
         (project_default_options, cmd_line_options, machine_file_options) = self.first_handle_prefix(project_default_options_in,
                                                                                                      cmd_line_options_in,
                                                                                                      machine_file_options_in)
+        # As for the command line, process buildtype before debug and
+        # optimization, so that explicit values for those override the
+        # buildtype expansion whatever the textual order.
+        bt_key = OptionKey('buildtype')
+        if bt_key in project_default_options:
+            project_default_options = {bt_key: project_default_options[bt_key], **project_default_options}
+        if bt_key in machine_file_options:
+            machine_file_options = {bt_key: machine_file_options[bt_key], **machine_file_options}
         for key, valstr in project_default_options.items():
             # Due to backwards compatibility we ignore build-machine options
             # when building natively.
